@@ -436,9 +436,29 @@ def notes_part(ctx, rp):
     common.compare(ctx, 'pipeline', ops, impl, what='real BaseComponent.advance: the notification of a thing in every state carries the whole thing or its state only (%d calls)' % len(ops))
 
 
+def raptor_backlog_part(ctx, rp):
+    """tasks addressed to a raptor master (by name or to any master) that reach the agent scheduler before the master has
+    registered its queue are held back: each of them must still end - relayed to a master once one is registered, failed
+    when its master goes away, canceled on request - and none may stay held while a master that serves it is registered
+    (it would sit in AGENT_SCHEDULING for ever: accepted, pilot alive, no final state)"""
+    from props import c20
+    rng = ctx.rng
+    n = 0
+    for ops_, n_ in [(list(o), k) for o, k in c20.FWD_CORPUS] + [c20.gen_fwd(rng) for _ in range(ctx.n(100, 3000))]:
+        r = c20.run_fwd(rp, ops_)
+        n += 1
+        ctx.case({'backlog': ops_}, nontrivial=bool(r['delivered']) and bool(r['backlog']))
+        for sig, what in c20.fwd_monitor(ops_, r, n_):
+            ctx.fail('raptor-backlog:' + sig, what, {'kind': 'backlog', 'ops': ops_, 'n': n_})
+    ctx.obligation('tasks held back by the agent scheduler for raptor masters (named and unnamed, bulks before and after registration, '
+                   'unregistration, cancel): none stays held while a master that serves it is registered, each is accounted for once (%d histories)' % n,
+                   'tie', True, '')
+
+
 def run(ctx):
     rp  = rpload.load()
     notes_part(ctx, rp)
+    raptor_backlog_part(ctx, rp)
     agent_intake_part(ctx, rp)
     rng = ctx.rng
     master_part(ctx, rp)
@@ -552,6 +572,10 @@ def replay(ctx, data):
             print('raised', repr(e)); return False
         print('handed on:', handed)
         return handed == [('task.%06d' % k, 'DONE' if c == 0 else 'FAILED') for k, c in enumerate(i['codes'])]
+    if i.get('kind') == 'backlog':
+        from props import c20
+        r = c20.run_fwd(rp, i['ops']); bad = c20.fwd_monitor(i['ops'], r, i['n']); print(r, bad)
+        return not bad
     if i.get('kind') == 'note':
         from radical.pilot.utils.component import AgentComponent
         bus = pipelib.Bus()
